@@ -227,6 +227,20 @@ func c04(r *engine.Report, p *engine.Program) {
 	}
 	r.Min("R3-restart-pending", 3)
 
+	// R3c a started remote unit is always re-attached at restart: success only through startOrRestart
+	if rr := p.Func("(*workceptor.remoteUnit).Restart"); rr != nil {
+		var sor []ssa.Instruction
+		for _, ci := range callsTo(rr, "(*workceptor.remoteUnit).startOrRestart") {
+			sor = append(sor, ci)
+		}
+		bad := engine.Reach(rr, nil, nil, func(in ssa.Instruction) bool { return isOneOf(in, sor) }, func(in ssa.Instruction) bool {
+			ret, isR := in.(*ssa.Return)
+			return isR && engine.IsNilConst(ret.Results[0])
+		})
+		r.Check("R3-restart-pending", "(*workceptor.remoteUnit).Restart: success only by re-attaching to the remote unit", rr.Pos(), len(sor) == 1 && bad == nil,
+			"Restart returns nil only as the result of startOrRestart(false): monitoring of status and output always resumes", "Restart can report success without resuming the monitors: the final state may already be mirrored while the output copy is still short, and nothing ever fetches the missing tail")
+	}
+
 	// R4 re-entrancy (same rule as C08-R3)
 	lockFields := map[*types.Var]bool{}
 	for _, lf := range [][3]string{{"workceptor", "Workceptor", "activeUnitsLock"}, {"workceptor", "Workceptor", "workTypesLock"}, {"workceptor", "BaseWorkUnit", "statusLock"}, {"workceptor", "BaseWorkUnit", "lastUpdateErrorLock"}} {
